@@ -430,12 +430,9 @@ pub fn check_stitched(
             format!("{at}: {orphan_silent:?} neither restored nor reported"),
         ));
     }
-    if orphans.is_empty() && !ro.monitor_errors.is_empty() {
-        v.push(Violation::new(
-            format!("C03:restore-interrupted-band-reports-errors:{site}"),
-            format!("{at}: restore of b{band:04} reported {:?}", ro.monitor_errors),
-        ));
-    }
+    // (Errors reported while restoring an interrupted version are not a violation in themselves:
+    // walking back through a band that cannot be opened, e.g. one with an empty BANDHEAD, is
+    // legitimately reported. The statement asks for the right content.)
     let cmp = Cmp {
         root_meta: expected.contains_key(""),
         ..Cmp::FULL
